@@ -8,25 +8,39 @@ def knownSite (f : String) : Bool :=
   Gen.C40.ops.any fun o => Gen.C40.fnNames.getD o.fn "" == f &&
     (o.role != .closeDone && o.role != .other)
 
-/-- Finding class `hlsMuxerLockCycle` on the watchdog's report (one entry per leftover goroutine: its
-innermost frames, innermost first).  All three parties of the cycle are there: the HLS loop inside a
-lock-taking muxer function, `pathManager.run` inside `hls.Server.PathReady/PathNotReady`, and a goroutine
-that holds the muxer mutex while it waits for the path manager or a path (a starting muxer inside
-`pathManager.AddReader`, or a session being closed under the mutex inside `path.RemoveReader`) — and the
-regenerated lock table still shows the hazard. -/
-def knownHLSCycle (chains : List String) : Bool :=
-  chains.any (fun c => c.startsWith "hls.muxer." && (c.splitOn "<").getD 1 "" == "hls.Server.run") &&
-  chains.any (fun c => c.startsWith "hls.Server.PathReady<pathManager.doSetPathReady" ||
-    c.startsWith "hls.Server.PathNotReady<pathManager.doSetPathNotReady") &&
-  chains.any (fun c => c.startsWith "pathManager.AddReader<hls.muxer.runInner" ||
-    (c.startsWith "path." && (c.splitOn "<").contains "hls.session.close2")) &&
-  !(lockCycleHazards Gen.C40.lockFns Gen.C40.loopLockCalls).isEmpty
+/-- an entry of the watchdog's report: frames (innermost first) and what the goroutine waits on -/
+def parseEntry (e : String) : List String × String :=
+  match e.splitOn "@" with
+  | [c, st] => (c.splitOn "<", st)
+  | _ => (e.splitOn "<", "other")
 
-/-- Finding class `hlsSessionCloseRace` on the frames of a panicking goroutine (innermost first): a muxer
-that is being destroyed closes a session (`session.close2`) which `muxer.addSession` has already
-registered but whose `reader` field `session.initialize` has not set yet: `stream.RemoveReader(nil)`. -/
-def knownSessionCrash (chain : List String) : Bool :=
-  chain.contains "stream.Stream.RemoveReader" && chain.contains "hls.session.close2"
+/-- frames (innermost first) of a goroutine that holds a muxer mutex while waiting for a loop -/
+def holdsMuxerMutex (c : List String) : Bool :=
+  let inReq := (c.headD "").startsWith "pathManager." || (c.headD "").startsWith "path."
+  let rec adj : List String → Bool
+    | a :: b :: rest => (a == "pathManager.AddReader" && b == "hls.muxer.runInner") || adj (b :: rest)
+    | _ => false
+  inReq && (adj c || c.contains "hls.session.close2")
+
+/-- Finding class `hlsMuxerLockCycle` (F-C40a, recorded as known), defined by its NECESSARY CORE on the
+watchdog's report (goroutines that were waiting at the same place in three samples):
+(A) the HLS server loop is blocked on a muxer's mutex: a goroutine with `hls.Server.run` on its stack that
+    waits on a mutex, or whose innermost frame is a `muxer.*` function called from the loop;
+(B) a goroutine holds a muxer mutex while it waits for the path manager or a path: a starting muxer
+    (`pathManager.AddReader` called by `muxer.runInner`, which still holds the mutex `muxer.initialize`
+    locked), or `session.close2` (always called under the muxer's mutex) inside `path.*`/`pathManager.*`;
+and the regenerated lock table still shows the hazard.  Every other blocked goroutine — `pathManager.run`
+in `PathReady`, API callers, paths, publishers — is a consequence and does not matter. -/
+def knownHLSCycle (entries : List String) : Bool :=
+  let es := entries.map parseEntry
+  es.any (fun (c, st) => c.contains "hls.Server.run" &&
+    (st == "mutex" || (c.headD "").startsWith "hls.muxer.")) &&
+  es.any (fun (c, _) => holdsMuxerMutex c) &&
+  -- a muxer waiting for its OWN mutex in its clean-up (`muxer.run`) is explained only by another goroutine
+  -- closing a session under that mutex; otherwise the mutex was leaked: a different defect
+  !(es.any (fun (c, st) => c.headD "" == "hls.muxer.run" && st == "mutex") &&
+    !es.any (fun (c, _) => c.contains "hls.session.close2")) &&
+  !(lockCycleHazards Gen.C40.lockFns Gen.C40.loopLockCalls).isEmpty
 
 /-- One op = one stress run of the real loops.  The model's answer is `done` (the theorems say every
 operation, including shutdown, completes) followed by the sampled blocking sites that the extracted
@@ -38,9 +52,11 @@ def step (_ : Unit) (op impl : String) : Unit × DrvOut :=
   | "stress" :: _ | "hls" :: _ =>
     if impl == "skipped" then ((), { model := "-" })
     else if impl.startsWith "crash" then
+      -- F-C40b (session closed before its initialization finished) is fixed in /repo (6317767): no KNOWN branch
       let chain := (impl.drop 6).toString.splitOn "<"
-      let v := if knownSessionCrash chain then "KNOWN hlsSessionCloseRace " else "FAIL "
-      ((), { model := "done", spec := v ++ "the server process panicked in " ++ (impl.drop 6).toString })
+      let reg := if chain.contains "stream.Stream.RemoveReader" && chain.contains "hls.session.close2"
+        then "regression of F-C40b: " else ""
+      ((), { model := "done", spec := "FAIL " ++ reg ++ "the server process panicked in " ++ (impl.drop 6).toString })
     else if impl.startsWith "hang" then
       let chains := (impl.drop 5).toString.splitOn ","
       let v := if knownHLSCycle chains then "KNOWN hlsMuxerLockCycle " else "FAIL "
